@@ -292,6 +292,9 @@ def error_clause(task, e):
     if not hit or e.get('phase') != task['prog'][i - 1]['ph']:
         return 'ReportedPlace: reported [%s] line %s, violations at %s' % (
             e.get('phase'), e.get('line'), sorted(v['i'] for v in task['viol']))
+    if e.get('kind') is None:
+        # the wording of the message is not recognised: the property fixes the verdict and the place, not the words
+        return None
     if e.get('kind') not in hit[0]['kinds'] or e.get('sym') not in hit[0]['syms']:
         return 'ReportedRule: reported %s of %s, specification %s of %s' % (
             e.get('kind'), e.get('sym'), sorted(hit[0]['kinds']), sorted(hit[0]['syms']))
